@@ -12,8 +12,8 @@ def queries(tier):
     qs = []
     for (nm, enc, dec) in FRAMINGS:
         qs.append(Q("roundtrip_" + nm, "C01/roundtrip.c", units=CODEC,
-                    harness_defines={"ENC": enc, "DEC": dec, "N": n}, unwind_default=2 * n + 12,
-                    unwind={"push": 4},
-                    bounds="message 0..%d bytes, every byte value; 3 pushes at all split points; initial capacity 0..%d symbolic then full" % (n, 2 * n + 6),
+                    harness_defines={"ENC": enc, "DEC": dec, "N": n, "PUSHES": 2 if tier == "quick" else 3},
+                    unwind_default=n + 4, unwind={"push": 3, "harness": 2 * n + 12},
+                    bounds="message 0..%d bytes, every byte value; 2 pushes (thorough: 3) at all split points; initial capacity 0..%d symbolic then full" % (n, 2 * n + 6),
                     outside="messages longer than %d bytes in this shape (block boundaries at 254/223: step harness)" % n))
     return qs
